@@ -28,7 +28,7 @@ namespace OasisProofs.C01
 open OasisModel.Mux OasisProofs.MuxH
 
 variable {St W Tx R Root Hdr LC Ev : Type}
-variable [DecidableEq Tx] [DecidableEq Root] [DecidableEq Hdr] [DecidableEq Ev]
+variable [DecidableEq Tx] [DecidableEq Root] [DecidableEq Hdr] [DecidableEq LC] [DecidableEq Ev]
 
 /-! ## The proposal cache -/
 
@@ -44,16 +44,18 @@ Then BeginBlock, DeliverTx…, EndBlock, Commit of the decided block `b`:
     whether they came from the cache or from execution;
   * and leave the multiplexer idle.
 
-`env` collects the environment hypotheses, among them the one forced by `isEqual`
-(`Env.commitInfo`); `commit_info_hypothesis_necessary` shows it cannot be dropped. -/
+`env` collects the environment hypotheses (hashes identify blocks, PrepareProposal is called with
+the node's own address).  Since /repo 47a524f `isEqual` compares the last-commit info, so no
+hypothesis about commit info is needed any more; `prefix_rule_commit_info_gap` records what went
+wrong with the rule before that fix. -/
 theorem mux_path_independent (A : Apps St W Tx R Root Hdr LC Ev)
-    (hashOf : Blk Tx Root Hdr LC Ev → Hash) (m : Mux St W Tx R Root Hdr Ev)
+    (hashOf : Blk Tx Root Hdr LC Ev → Hash) (m : Mux St W Tx R Root Hdr LC Ev)
     (J P : List (Call Tx Root Hdr LC Ev)) (b : Blk Tx Root Hdr LC Ev)
     (hJ : ∀ c ∈ J, c.isCommit = false)
     (hJr : (J = [] ∧ m.prop = none) ∨ ∃ J', J = J' ++ [Call.restart])
     (hP : ∀ c ∈ P, c.isPre = true)
     (env : Env A hashOf m.self P)
-    (m1 : Mux St W Tx R Root Hdr Ev) (r1 : List (Resp Tx R Root)) (hrun : run A m J = some (m1, r1)) :
+    (m1 : Mux St W Tx R Root Hdr LC Ev) (r1 : List (Resp Tx R Root)) (hrun : run A m J = some (m1, r1)) :
     ∃ rP, rP.length = P.length ∧
       run A m (J ++ P ++ deliverSeq (hashOf b) b) =
         (exec A m.canon b).map fun x =>
@@ -90,7 +92,7 @@ theorem mux_path_independent (A : Apps St W Tx R Root Hdr LC Ev)
 all CheckTx / simulate / query calls from any trace changes neither the committed state, nor the
 proposal cache, nor the response to any other call. -/
 theorem checktx_simulate_query_invisible (A : Apps St W Tx R Root Hdr LC Ev)
-    (m : Mux St W Tx R Root Hdr Ev) (T : List (Call Tx Root Hdr LC Ev)) :
+    (m : Mux St W Tx R Root Hdr LC Ev) (T : List (Call Tx Root Hdr LC Ev)) :
     (run A m T).map (fun x => (core x.1, keepCore T x.2)) =
       (run A m (T.filter fun c => !c.isNoise)).map (fun x => (core x.1, x.2)) :=
   run_strip A m m rfl T
@@ -116,8 +118,8 @@ def HeightTrace.Ok (A : Apps St W Tx R Root Hdr LC Ev) (hashOf : Blk Tx Root Hdr
 /-- Run a replica through consecutive heights, keeping per height the responses to the delivery
 of the decided block (BeginBlock, every DeliverTx, EndBlock, Commit). -/
 def runHeights (A : Apps St W Tx R Root Hdr LC Ev) (hashOf : Blk Tx Root Hdr LC Ev → Hash) :
-    Mux St W Tx R Root Hdr Ev → List (HeightTrace Tx Root Hdr LC Ev) →
-    Option (Mux St W Tx R Root Hdr Ev × List (List (Resp Tx R Root)))
+    Mux St W Tx R Root Hdr LC Ev → List (HeightTrace Tx Root Hdr LC Ev) →
+    Option (Mux St W Tx R Root Hdr LC Ev × List (List (Resp Tx R Root)))
   | m, [] => some (m, [])
   | m, t :: ts =>
     match run A m (t.calls hashOf) with
@@ -142,7 +144,7 @@ def execChain (A : Apps St W Tx R Root Hdr LC Ev) :
 /-- A replica that gets through its call sequence has, at every height, the executor's state and
 returned the executor's results for the decided block. -/
 theorem replica_follows_chain (A : Apps St W Tx R Root Hdr LC Ev)
-    (hashOf : Blk Tx Root Hdr LC Ev → Hash) (m m' : Mux St W Tx R Root Hdr Ev)
+    (hashOf : Blk Tx Root Hdr LC Ev → Hash) (m m' : Mux St W Tx R Root Hdr LC Ev)
     (ts : List (HeightTrace Tx Root Hdr LC Ev)) (out : List (List (Resp Tx R Root)))
     (hidle : m.prop = none) (hok : ∀ t ∈ ts, t.Ok A hashOf m.self)
     (hrun : runHeights A hashOf m ts = some (m', out)) :
@@ -203,7 +205,7 @@ CheckTx / query traffic), end every height with the same committed state and hav
 same BeginBlock / DeliverTx / EndBlock results and the same application hash. -/
 theorem replicas_agree (A : Apps St W Tx R Root Hdr LC Ev)
     (hashOf : Blk Tx Root Hdr LC Ev → Hash)
-    (m1 m2 m1' m2' : Mux St W Tx R Root Hdr Ev)
+    (m1 m2 m1' m2' : Mux St W Tx R Root Hdr LC Ev)
     (ts1 ts2 : List (HeightTrace Tx Root Hdr LC Ev)) (out1 out2 : List (List (Resp Tx R Root)))
     (hsame : m1.canon = m2.canon) (hblocks : ts1.map (·.b) = ts2.map (·.b))
     (h1 : m1.prop = none) (h2 : m2.prop = none)
@@ -219,25 +221,36 @@ theorem replicas_agree (A : Apps St W Tx R Root Hdr LC Ev)
 
 /-! ### What `isEqual` compares -/
 
-/-- **`isEqual` is sound for the fields it compares**: ProcessProposal answers from the cache only
-if a proposal was executed and its recorded header, transaction list and misbehaviour list are
-equal to the offered ones. -/
-theorem isEqual_sound (m : Mux St W Tx R Root Hdr Ev) (b : Blk Tx Root Hdr LC Ev)
+/-- **`isEqual` is sound**: ProcessProposal answers from the cache only if a proposal was executed
+and its recorded header, transaction list, last-commit info and misbehaviour list are equal to the
+offered ones — every input of block execution. -/
+theorem isEqual_sound (m : Mux St W Tx R Root Hdr LC Ev) (b : Blk Tx Root Hdr LC Ev)
     (h : reusable m b = true) :
-    ∃ p, m.prop = some p ∧ p.results.isSome = true ∧ p.recd = some (b.hdr, b.txs, b.ev) := by
+    ∃ p, m.prop = some p ∧ p.results.isSome = true ∧ p.recd = some (b.hdr, b.txs, b.lc, b.ev) := by
   unfold reusable at h
   cases hp : m.prop with
   | none => simp [hp] at h
   | some p =>
     simp only [hp, Bool.and_eq_true] at h
-    exact ⟨p, rfl, h.1, isEqual_recd p b.hdr b.txs b.ev h.2⟩
+    exact ⟨p, rfl, h.1, isEqual_recd p b.hdr b.txs b.lc b.ev h.2⟩
 
-/-- …and it compares nothing else: the last-commit info of the offered block is never looked at. -/
-theorem isEqual_ignores_commit_info (m : Mux St W Tx R Root Hdr Ev) (b : Blk Tx Root Hdr LC Ev) (lc : LC) :
-    reusable m { b with lc := lc } = reusable m b := rfl
+/-- In particular a block that differs from the cached one only in its last-commit info is never
+answered from the cache (the repaired rule, /repo 47a524f). -/
+theorem isEqual_compares_commit_info (m : Mux St W Tx R Root Hdr LC Ev) (b : Blk Tx Root Hdr LC Ev) (lc : LC)
+    (h : reusable m b = true) (hne : lc ≠ b.lc) : reusable m { b with lc := lc } = false := by
+  obtain ⟨p, hp, _, hrec⟩ := isEqual_sound m b h
+  cases hr : reusable m { b with lc := lc } with
+  | false => rfl
+  | true =>
+    obtain ⟨p', hp', _, hrec'⟩ := isEqual_sound m { b with lc := lc } hr
+    rw [hp] at hp'
+    cases hp'
+    rw [hrec] at hrec'
+    simp only [Option.some.injEq, Prod.mk.injEq] at hrec'
+    exact absurd hrec'.2.2.1.symm hne
 
 /-- Without a usable cache entry ProcessProposal is the executor: ACCEPT iff `exec` succeeds. -/
-theorem process_executes (A : Apps St W Tx R Root Hdr LC Ev) (m : Mux St W Tx R Root Hdr Ev)
+theorem process_executes (A : Apps St W Tx R Root Hdr LC Ev) (m : Mux St W Tx R Root Hdr LC Ev)
     (h : Hash) (hnz : h ≠ 0) (b : Blk Tx Root Hdr LC Ev) (hr : reusable m b = false) :
     (process A m h b).2 = if (exec A m.canon b).isSome then Resp.accept else Resp.reject := by
   have hz : (h == 0) = false := by simp [hnz]
@@ -252,7 +265,7 @@ def metaBodies : List (RawTx Tx Root) → List (Option (Root × Root))
   | .user _ :: ts => metaBodies ts
   | .sysMeta _ _ body :: ts => body :: metaBodies ts
 
-omit [DecidableEq Tx] [DecidableEq Root] [DecidableEq Hdr] [DecidableEq Ev] in
+omit [DecidableEq Tx] [DecidableEq Root] [DecidableEq Hdr] [DecidableEq LC] [DecidableEq Ev] in
 theorem deliverAll_sys (A : Apps St W Tx R Root Hdr LC Ev) (he : Bool) (wk wk' : Work W Root)
     (txs : List (RawTx Tx Root)) (rs : List R) (h : deliverAll A he wk txs = some (wk', rs)) :
     wk'.sys = wk.sys ++ metaBodies txs ∧
@@ -300,7 +313,7 @@ theorem deliverAll_sys (A : Apps St W Tx R Root Hdr LC Ev) (he : Bool) (wk wk' :
             · exact ⟨hcond.1.2, hcond.2, hcond.1.1⟩
             · exact ih2 sg wf body hmem
 
-omit [DecidableEq Tx] [DecidableEq Hdr] [DecidableEq Ev] in
+omit [DecidableEq Tx] [DecidableEq Hdr] [DecidableEq LC] [DecidableEq Ev] in
 theorem endOne_false_some (A : Apps St W Tx R Root Hdr LC Ev) (wk wk2 : Work W Root) (re : R)
     (h : endOne A false wk = some (wk2, re)) :
     ∃ w', wk2 = { wk with w := w' } ∧ validate A wk2 = true := by
@@ -317,7 +330,7 @@ theorem endOne_false_some (A : Apps St W Tx R Root Hdr LC Ev) (wk wk2 : Work W R
       exact ⟨w', rfl, hv⟩
     · cases h
 
-omit [DecidableEq Tx] [DecidableEq Hdr] [DecidableEq Ev] in
+omit [DecidableEq Tx] [DecidableEq Hdr] [DecidableEq LC] [DecidableEq Ev] in
 /-- **`meta_binds_root`.**  If a block executes (ProcessProposal accepts it by execution, or its
 delivery gets past EndBlock), then it contains exactly one block-metadata transaction, signed by
 the block's proposer, well formed, and carrying exactly the state root and the provable-events
@@ -367,7 +380,7 @@ theorem meta_binds_root (A : Apps St W Tx R Root Hdr LC Ev) (s : St) (b : Blk Tx
           exact ⟨this.1, this.2.1.trans hwk0.2⟩
 
 /-- Executing ProcessProposal rejects a block whose metadata does not match the executor's roots. -/
-theorem process_rejects_unbound_root (A : Apps St W Tx R Root Hdr LC Ev) (m : Mux St W Tx R Root Hdr Ev)
+theorem process_rejects_unbound_root (A : Apps St W Tx R Root Hdr LC Ev) (m : Mux St W Tx R Root Hdr LC Ev)
     (h : Hash) (hnz : h ≠ 0) (b : Blk Tx Root Hdr LC Ev) (hr : reusable m b = false)
     (hbad : ∀ x, exec A m.canon b = some x →
       metaBodies b.txs ≠ [some (A.root (A.tree x.1.w), A.evroot x.1.w)]) :
@@ -378,285 +391,7 @@ theorem process_rejects_unbound_root (A : Apps St W Tx R Root Hdr LC Ev) (m : Mu
   | some x => exact absurd (meta_binds_root A m.canon b x hx).1 (hbad x hx)
 
 
-/-! ### Without the commit-info hypothesis: the metadata transaction still pins the state
-
-`Env.commitInfo` cannot be proved from the code (`commit_info_hypothesis_necessary`).  What the
-code does guarantee without it: a stale cache entry can only be served for a block the executor
-*rejects*, or for one on which it reaches a state with the same root.  So if the decided block is
-valid — some honest validator executed and accepted it — every replica commits the executor's
-state (up to collisions of the state root hash), even the one that answered from a stale cache. -/
-
-/-- `Env` without `commitInfo`. -/
-structure EnvWeak (A : Apps St W Tx R Root Hdr LC Ev) (hashOf : Blk Tx Root Hdr LC Ev → Hash) (me : Nat)
-    (cs : List (Call Tx Root Hdr LC Ev)) : Prop where
-  hinj : ∀ b b', hashOf b = hashOf b' → b = b'
-  hnz : ∀ b, hashOf b ≠ 0
-  wf : ∀ h b, Call.process h b ∈ cs → h = hashOf b
-  selfProposer : ∀ b0, Call.prepare b0 ∈ cs → A.proposer b0.hdr = me
-
-def GoodW (A : Apps St W Tx R Root Hdr LC Ev) (hashOf : Blk Tx Root Hdr LC Ev → Hash)
-    (cs : List (Call Tx Root Hdr LC Ev)) (s : St) (self : Nat) (p : Proposal W Tx R Root Hdr Ev) : Prop :=
-  match p.results with
-  | none => p.work = none
-  | some res =>
-    (∀ hdr txs ev, p.recd = some (hdr, txs, ev) →
-      ∃ b0 wk, Call.prepare b0 ∈ cs ∧ hdr = b0.hdr ∧ ev = b0.ev ∧ p.work = some wk ∧
-        PreparedBy A s self b0 wk txs res) ∧
-    (p.hash = 0 ∨ ∃ b wk, p.hash = hashOf b ∧ p.work = some wk ∧ res.2.1.length = b.txs.length ∧
-      ∀ x, exec A s b = some x → A.root (A.tree wk.w) = A.root (A.tree x.1.w))
-
-def InvW (A : Apps St W Tx R Root Hdr LC Ev) (hashOf : Blk Tx Root Hdr LC Ev → Hash)
-    (cs : List (Call Tx Root Hdr LC Ev)) (s : St) (self : Nat) (m : Mux St W Tx R Root Hdr Ev) : Prop :=
-  m.canon = s ∧ m.self = self ∧ ∀ p, m.prop = some p → GoodW A hashOf cs s self p
-
-omit [DecidableEq Tx] [DecidableEq Root] [DecidableEq Hdr] [DecidableEq Ev] in
-theorem metaBodies_append (xs ys : List (RawTx Tx Root)) :
-    metaBodies (xs ++ ys) = metaBodies xs ++ metaBodies ys := by
-  induction xs with
-  | nil => rfl
-  | cons t ts ih => cases t <;> simp [metaBodies, ih]
-
-omit [DecidableEq Tx] [DecidableEq Root] [DecidableEq Hdr] [DecidableEq Ev] in
-theorem metaBodies_nil_of_no_sys (txs : List (RawTx Tx Root))
-    (h : ∀ sg wf body, RawTx.sysMeta sg wf body ∉ txs) : metaBodies txs = [] := by
-  induction txs with
-  | nil => rfl
-  | cons t ts ih =>
-    cases t with
-    | user u => simp only [metaBodies]; exact ih (fun sg wf body hm => h sg wf body (List.mem_cons_of_mem _ hm))
-    | sysMeta sg wf body => exact absurd (List.mem_cons_self) (h sg wf body)
-
-/-- What a proposer caches for its own block has the root a validating executor computes for any
-block with the same transactions — whatever that block's commit info. -/
-theorem prepared_root_bound (A : Apps St W Tx R Root Hdr LC Ev) (s : St) (self : Nat)
-    (b0 b : Blk Tx Root Hdr LC Ev) (wk : Work W Root) (res : R × List R × R)
-    (hprep : PreparedBy A s self b0 wk b.txs res) :
-    res.2.1.length = b.txs.length ∧
-      ∀ x, exec A s b = some x → A.root (A.tree wk.w) = A.root (A.tree x.1.w) := by
-  obtain ⟨rb, rds, re, hexec, htxs, rfl⟩ := hprep
-  have hlen := exec_results_length A s true _ _ _ _ _ _ _ _ hexec
-  refine ⟨by simp [htxs, hlen], ?_⟩
-  intro x hx
-  have hmb := (meta_binds_root A s b x hx).1
-  -- the prepared transactions contain no system transaction
-  have hnosys : metaBodies b0.txs = [] := by
-    apply metaBodies_nil_of_no_sys
-    intro sg wf body hmem
-    simp only [execBlock] at hexec
-    cases hb : beginOne A s b0.hdr b0.lc b0.ev with
-    | none => simp [hb] at hexec
-    | some y =>
-      simp only [hb] at hexec
-      cases hd : deliverAll A true y.1 b0.txs with
-      | none => simp [hd] at hexec
-      | some z =>
-        have := (deliverAll_sys A true y.1 z.1 b0.txs z.2 hd).2 sg wf body hmem
-        exact absurd this.2.2 (by decide)
-  rw [htxs, metaBodies_append, hnosys] at hmb
-  simp only [metaTx, metaBodies, List.nil_append, List.cons.injEq, Option.some.injEq, Prod.mk.injEq,
-    and_true] at hmb
-  exact hmb.1
-
-theorem step_pre_invW (A : Apps St W Tx R Root Hdr LC Ev) (hashOf : Blk Tx Root Hdr LC Ev → Hash)
-    (cs : List (Call Tx Root Hdr LC Ev)) (s : St) (self : Nat) (env : EnvWeak A hashOf self cs)
-    (m m' : Mux St W Tx R Root Hdr Ev) (c : Call Tx Root Hdr LC Ev) (r : Resp Tx R Root)
-    (hc : c ∈ cs) (hpre : c.isPre = true) (hinv : InvW A hashOf cs s self m)
-    (hs : step A m c = some (m', r)) : InvW A hashOf cs s self m' := by
-  obtain ⟨hcanon, hself, hgood⟩ := hinv
-  cases c with
-  | prepare b0 =>
-    simp only [step, prepare, Option.some.injEq] at hs
-    cases he : execBlock A m.canon true b0.hdr b0.lc b0.ev b0.txs with
-    | none =>
-      simp only [he, Prod.mk.injEq] at hs
-      obtain ⟨rfl, _⟩ := hs
-      refine ⟨hcanon, hself, ?_⟩
-      intro p hp
-      simp only [Option.some.injEq] at hp
-      subst hp
-      simp [GoodW, freshProposal]
-    | some x =>
-      obtain ⟨wk, rb, rds, re⟩ := x
-      simp only [he, Prod.mk.injEq] at hs
-      obtain ⟨rfl, _⟩ := hs
-      refine ⟨hcanon, hself, ?_⟩
-      intro p hp
-      simp only [Option.some.injEq] at hp
-      subst hp
-      simp only [GoodW]
-      refine ⟨?_, Or.inl trivial⟩
-      intro hdr txs ev hrec
-      simp only [Option.some.injEq, Prod.mk.injEq] at hrec
-      obtain ⟨rfl, rfl, rfl⟩ := hrec
-      refine ⟨b0, wk, hc, rfl, rfl, rfl, rb, rds, re, ?_, ?_, rfl⟩
-      · rw [← hcanon]; exact he
-      · rw [hself]
-  | process h b =>
-    have hh : h = hashOf b := env.wf h b hc
-    have hz : (h == 0) = false := by simp [hh, env.hnz b]
-    simp only [step, process, Option.some.injEq] at hs
-    by_cases hr : reusable m b = true
-    · simp only [hr, if_true, Prod.mk.injEq] at hs
-      obtain ⟨rfl, _⟩ := hs
-      refine ⟨hcanon, hself, ?_⟩
-      intro p' hp'
-      unfold reusable at hr
-      cases hp : m.prop with
-      | none => simp [hp] at hr
-      | some p =>
-        simp only [hp, Bool.and_eq_true] at hr
-        simp only [hp, Option.map_some, Option.some.injEq] at hp'
-        subst hp'
-        have hg := hgood p hp
-        have hrec := isEqual_recd p b.hdr b.txs b.ev hr.2
-        cases hres : p.results with
-        | none => simp [hres] at hr
-        | some res =>
-          simp only [GoodW, hres] at hg ⊢
-          refine ⟨hg.1, Or.inr ?_⟩
-          obtain ⟨b0, wk, hb0, hhdr, hev, hwork, hprep⟩ := hg.1 _ _ _ hrec
-          obtain ⟨hlen, hroot⟩ := prepared_root_bound A s self b0 b wk res hprep
-          exact ⟨b, wk, hh, hwork, hlen, hroot⟩
-    · simp only [hr, hz] at hs
-      cases he : execBlock A m.canon false b.hdr b.lc b.ev b.txs with
-      | none =>
-        simp only [he, Bool.false_eq_true, if_false, Prod.mk.injEq] at hs
-        obtain ⟨rfl, _⟩ := hs
-        refine ⟨hcanon, hself, ?_⟩
-        intro p hp
-        simp only [Option.some.injEq] at hp
-        subst hp
-        simp [GoodW, freshProposal]
-      | some x =>
-        obtain ⟨wk, rb, rds, re⟩ := x
-        simp only [he, Bool.false_eq_true, if_false, Prod.mk.injEq] at hs
-        obtain ⟨rfl, _⟩ := hs
-        refine ⟨hcanon, hself, ?_⟩
-        intro p hp
-        simp only [Option.some.injEq] at hp
-        subst hp
-        simp only [GoodW]
-        refine ⟨(by intro _ _ _ h; cases h), Or.inr ⟨b, wk, hh, rfl, ?_, ?_⟩⟩
-        · exact exec_results_length A m.canon false _ _ _ _ _ _ _ _ he
-        · intro x hx
-          rw [← hcanon] at hx
-          simp only [exec, he, Option.some.injEq] at hx
-          rw [← hx]
-  | restart =>
-    simp only [step, restart, Option.some.injEq, Prod.mk.injEq] at hs
-    obtain ⟨rfl, _⟩ := hs
-    exact ⟨hcanon, hself, by intro p hp; cases hp⟩
-  | checkTx t =>
-    simp only [step, Option.some.injEq, Prod.mk.injEq] at hs
-    obtain ⟨rfl, _⟩ := hs
-    exact ⟨hcanon, hself, hgood⟩
-  | simulate t =>
-    simp only [step, Option.some.injEq, Prod.mk.injEq] at hs
-    obtain ⟨rfl, _⟩ := hs
-    exact ⟨hcanon, hself, hgood⟩
-  | query =>
-    simp only [step, Option.some.injEq, Prod.mk.injEq] at hs
-    obtain ⟨rfl, _⟩ := hs
-    exact ⟨hcanon, hself, hgood⟩
-  | begin h b => simp [Call.isPre] at hpre
-  | deliver t => simp [Call.isPre] at hpre
-  | endBlock => simp [Call.isPre] at hpre
-  | commit => simp [Call.isPre] at hpre
-
-theorem run_pre_invW (A : Apps St W Tx R Root Hdr LC Ev) (hashOf : Blk Tx Root Hdr LC Ev → Hash)
-    (cs : List (Call Tx Root Hdr LC Ev)) (s : St) (self : Nat) (env : EnvWeak A hashOf self cs)
-    (P : List (Call Tx Root Hdr LC Ev)) (hP : ∀ c ∈ P, c ∈ cs ∧ c.isPre = true)
-    (m : Mux St W Tx R Root Hdr Ev) (hinv : InvW A hashOf cs s self m) :
-    ∃ m' rs, run A m P = some (m', rs) ∧ InvW A hashOf cs s self m' := by
-  induction P generalizing m with
-  | nil => exact ⟨m, [], rfl, hinv⟩
-  | cons c P ih =>
-    obtain ⟨x, hx⟩ := step_pre_some A m c (hP c (by simp)).2
-    obtain ⟨m1, r⟩ := x
-    have hinv1 := step_pre_invW A hashOf cs s self env m m1 c r (hP c (by simp)).1 (hP c (by simp)).2 hinv hx
-    obtain ⟨m2, rs, hr, hinv2⟩ := ih (fun c' hc' => hP c' (by simp [hc'])) m1 hinv1
-    exact ⟨m2, r :: rs, by simp [run, hx, hr], hinv2⟩
-
-/-- **Without `Env.commitInfo`: a valid decided block still yields the executor's state.**
-Same grammar as `mux_path_independent`, no hypothesis about commit info, the state root hash
-injective (collision resistance, a hypothesis).  If the executor accepts the decided block, then
-the delivery succeeds on this replica too and commits exactly the executor's state — also when
-the replica answered from a cache entry computed with other commit info.  (The *results* handed
-back may then be the stale ones; only the state is pinned by the metadata transaction.) -/
-theorem valid_block_state_bound (A : Apps St W Tx R Root Hdr LC Ev)
-    (hashOf : Blk Tx Root Hdr LC Ev → Hash) (hroot : Function.Injective A.root)
-    (m : Mux St W Tx R Root Hdr Ev)
-    (J P : List (Call Tx Root Hdr LC Ev)) (b : Blk Tx Root Hdr LC Ev)
-    (hJ : ∀ c ∈ J, c.isCommit = false)
-    (hJr : (J = [] ∧ m.prop = none) ∨ ∃ J', J = J' ++ [Call.restart])
-    (hP : ∀ c ∈ P, c.isPre = true)
-    (env : EnvWeak A hashOf m.self P)
-    (m1 : Mux St W Tx R Root Hdr Ev) (r1 : List (Resp Tx R Root)) (hrun : run A m J = some (m1, r1))
-    (x : Work W Root × R × List R × R) (hvalid : exec A m.canon b = some x) :
-    ∃ m' outs, run A m (J ++ P ++ deliverSeq (hashOf b) b) = some (m', outs) ∧
-      m'.canon = A.tree x.1.w ∧ m'.prop = none := by
-  have hidle : m1.canon = m.canon ∧ m1.self = m.self ∧ m1.prop = none := by
-    have hc := run_canon A m m1 J r1 hrun hJ
-    refine ⟨hc.1, hc.2, ?_⟩
-    rcases hJr with ⟨rfl, hp⟩ | ⟨J', rfl⟩
-    · simp only [run_nil, Option.some.injEq, Prod.mk.injEq] at hrun
-      rw [← hrun.1]; exact hp
-    · rw [run_append] at hrun
-      cases h1 : run A m J' with
-      | none => simp [h1] at hrun
-      | some y =>
-        simp only [h1, Option.bind_some, run_cons, step, run_nil, Option.map_some, Option.some.injEq,
-          Prod.mk.injEq] at hrun
-        rw [← hrun.1]; rfl
-  have hinv : InvW A hashOf P m.canon m.self m1 :=
-    ⟨hidle.1, hidle.2.1, by intro p hp; rw [hidle.2.2] at hp; cases hp⟩
-  obtain ⟨m2, rP, hrP, hcanon, hself, hgood⟩ := run_pre_invW A hashOf P m.canon m.self env P
-    (fun c hc => ⟨hc, hP c hc⟩) m1 hinv
-  -- the delivery from m2
-  have hdel : ∃ m' outs, run A m2 (deliverSeq (hashOf b) b) = some (m', outs) ∧
-      m'.canon = A.tree x.1.w ∧ m'.prop = none := by
-    have fresh : BeginsFresh m2 (hashOf b) → ∃ m' outs, run A m2 (deliverSeq (hashOf b) b) = some (m', outs) ∧
-        m'.canon = A.tree x.1.w ∧ m'.prop = none := by
-      intro hf
-      rw [run_deliverSeq_fresh A m2 (hashOf b) (env.hnz b) b hf, hcanon, hvalid]
-      exact ⟨_, _, rfl, rfl, rfl⟩
-    cases hp : m2.prop with
-    | none => exact fresh (by intro p hp'; rw [hp] at hp'; cases hp')
-    | some p =>
-      by_cases hh : p.hash = hashOf b
-      · have hg := hgood p hp
-        cases hres : p.results with
-        | none =>
-          simp only [GoodW, hres] at hg
-          apply fresh
-          intro p' hp' _
-          rw [hp] at hp'; cases hp'
-          exact ⟨hres, hg⟩
-        | some res =>
-          simp only [GoodW, hres] at hg
-          rcases hg.2 with h0 | ⟨b', wk, hb', hwork, hlen, hrt⟩
-          · exact absurd (hh.symm.trans h0) (env.hnz b)
-          · have : b' = b := env.hinj _ _ (hb'.symm.trans hh)
-            subst this
-            obtain ⟨rb, rds, re⟩ := res
-            obtain ⟨mself, mcanon, mprop, mcheck⟩ := m2
-            obtain ⟨precd, phash, pwork, presults⟩ := p
-            simp only at hp hh hres hwork hcanon hself hlen
-            subst hp hh hres hwork hcanon
-            rw [run_deliverSeq_cached A _ _ _ _ _ wk rb re rds b' hlen]
-            exact ⟨_, _, rfl, hroot (hrt x hvalid), rfl⟩
-      · apply fresh
-        intro p' hp' hh'
-        rw [hp] at hp'; cases hp'
-        exact absurd hh' hh
-  obtain ⟨m', outs, hrd, hc', hp'⟩ := hdel
-  refine ⟨m', r1 ++ rP ++ outs, ?_, hc', hp'⟩
-  rw [List.append_assoc, run_append, hrun]
-  simp only [Option.bind_some]
-  rw [run_append, hrP]
-  simp only [Option.bind_some, hrd, Option.map_some, List.append_assoc]
-
-/-! ### The environment hypothesis on commit info cannot be dropped (and non-vacuity) -/
+/-! ### Non-vacuity, and the rule before the fix (historical) -/
 
 /-- A small executor whose BeginBlock reads the last-commit info (as staking's reward and fee
 disbursement do): state, working state, transactions, results, roots, headers, commit info and
@@ -702,7 +437,7 @@ theorem Toy.hashOf_inj : ∀ b b', hashOf b = hashOf b' → b = b' := by
   exact blkCode_inj (Encodable.encode_injective h)
 
 /-- Node 1, state 0, idle. -/
-def Toy.m0 : Mux Nat Nat Nat Nat Nat Nat Nat := ⟨1, 0, none, 0⟩
+def Toy.m0 : Mux Nat Nat Nat Nat Nat Nat Nat Nat := ⟨1, 0, none, 0⟩
 /-- What node 1 is asked to propose: one transaction, last-commit info 5. -/
 def Toy.b0 : TBlk := { hdr := 1, txs := [.user 3], ev := 0, lc := 5 }
 /-- The block node 1 proposes: `b0` plus the metadata transaction (state root 8). -/
@@ -710,32 +445,69 @@ def Toy.b0' : TBlk := { b0 with txs := [.user 3, .sysMeta 1 true (some (8, 0))] 
 /-- A block equal to `b0'` in header, transactions and evidence, with last-commit info 9. -/
 def Toy.b1 : TBlk := { b0' with lc := 9 }
 
-theorem Toy.stale_run (h : Hash) (hnz : h ≠ 0) :
-    (run A m0 ([Call.prepare b0, Call.process h b1] ++ deliverSeq h b1)).map (fun x => x.1.canon) = some 8 := by
+/-! #### HISTORICAL: the pre-fix rule (`isEqual` before /repo 47a524f did not compare commit info)
+
+Kept as a regression statement about the *old* rule only; nothing else in this file refers to it. -/
+
+/-- `isEqual` as it was before /repo 47a524f: header, transactions, misbehaviour. -/
+def reusablePreFix (m : Mux St W Tx R Root Hdr LC Ev) (b : Blk Tx Root Hdr LC Ev) : Bool :=
+  match m.prop with
+  | none => false
+  | some p => p.results.isSome &&
+    match p.recd with
+    | none => false
+    | some (h, t, _, e) => h == b.hdr && t == b.txs && e == b.ev
+
+/-- ProcessProposal with the pre-fix reuse rule. -/
+def processPreFix (A : Apps St W Tx R Root Hdr LC Ev) (m : Mux St W Tx R Root Hdr LC Ev) (h : Hash)
+    (b : Blk Tx Root Hdr LC Ev) : Mux St W Tx R Root Hdr LC Ev × Resp Tx R Root :=
+  if reusablePreFix m b then ({ m with prop := m.prop.map fun p => { p with hash := h } }, .accept)
+  else process A m h b
+
+def runPreFix (A : Apps St W Tx R Root Hdr LC Ev) :
+    Mux St W Tx R Root Hdr LC Ev → List (Call Tx Root Hdr LC Ev) →
+    Option (Mux St W Tx R Root Hdr LC Ev × List (Resp Tx R Root))
+  | m, [] => some (m, [])
+  | m, c :: cs =>
+    match (match c with | .process h b => some (processPreFix A m h b) | c => step A m c) with
+    | none => none
+    | some (m', r) =>
+      match runPreFix A m' cs with
+      | none => none
+      | some (m'', rs) => some (m'', r :: rs)
+
+theorem Toy.stale_run_prefix (h : Hash) (hnz : h ≠ 0) :
+    (runPreFix A m0 ([Call.prepare b0, Call.process h b1] ++ deliverSeq h b1)).map (fun x => x.1.canon) = some 8 := by
   have hz : (h == 0) = false := by simp [hnz]
-  simp [run, step, prepare, process, reusable, isEqual, execBlock, beginOne, deliverAll, deliverOne, endOne,
+  simp [runPreFix, step, prepare, processPreFix, reusablePreFix, execBlock, beginOne, deliverAll, deliverOne, endOne,
     A, m0, b0, b0', b1, metaTx, deliverSeq, beginBlock, deliverTx, endBlock, commit]
 
-/-- **`Env.commitInfo` is necessary.**  There are an executor, an idle multiplexer, undecided-phase
-calls `P` and a decided block `b` satisfying every hypothesis of `mux_path_independent` *except*
-`commitInfo` (injective non-zero hashes, ProcessProposal carries the block's hash, PrepareProposal
-with the node's own address) such that the executor rejects `b` — a replica executing it panics in
-EndBlock because the metadata state root is wrong — while this replica answers the delivery of `b`
-from its cache and commits state 8.  The calls: `PrepareProposal(b0)`; `ProcessProposal(b1)` where
-`b1` equals the prepared block in header, transactions and evidence but carries another
-last-commit; then the delivery of `b1`. -/
-theorem commit_info_hypothesis_necessary :
-    ∃ (hashOf : Toy.TBlk → Hash) (m : Mux Nat Nat Nat Nat Nat Nat Nat)
+theorem Toy.fixed_run (h : Hash) (hnz : h ≠ 0) :
+    run A m0 ([Call.prepare b0, Call.process h b1] ++ deliverSeq h b1) = none := by
+  have hz : (h == 0) = false := by simp [hnz]
+  simp [run, step, prepare, process, reusable, isEqual, execBlock, beginOne, deliverAll, deliverOne, endOne,
+    A, m0, b0, b0', b1, metaTx, deliverSeq, beginBlock, deliverTx, endBlock, commit, freshProposal, validate, hz]
+
+/-- **HISTORICAL — the commit-info gap of the pre-fix rule** (candidate defect reported by this
+check, repaired in /repo 47a524f).  With an injective non-zero block hash, the node's own address
+as proposer and an idle multiplexer: `PrepareProposal(b0)`; `ProcessProposal(b1)` where `b1` equals
+the prepared block in header, transactions and evidence but carries another last-commit; delivery
+of `b1`.  The executor rejects `b1` (its metadata state root is wrong for that commit info).
+Under the *pre-fix* rule the replica answered from its cache and committed state 8; under the
+current rule the same calls behave like the executor (the delivery panics, as on every replica). -/
+theorem prefix_rule_commit_info_gap :
+    ∃ (hashOf : Toy.TBlk → Hash) (m : Mux Nat Nat Nat Nat Nat Nat Nat Nat)
       (P : List (Call Nat Nat Nat Nat Nat)) (b : Toy.TBlk),
       (∀ b b', hashOf b = hashOf b' → b = b') ∧ (∀ b, hashOf b ≠ 0) ∧
       (∀ h b', Call.process h b' ∈ P → h = hashOf b') ∧
       (∀ b0, Call.prepare b0 ∈ P → Toy.A.proposer b0.hdr = m.self) ∧
       (∀ c ∈ P, c.isPre = true) ∧ m.prop = none ∧
       exec Toy.A m.canon b = none ∧
-      (run Toy.A m (P ++ deliverSeq (hashOf b) b)).map (fun x => x.1.canon) = some 8 := by
+      (runPreFix Toy.A m (P ++ deliverSeq (hashOf b) b)).map (fun x => x.1.canon) = some 8 ∧
+      run Toy.A m (P ++ deliverSeq (hashOf b) b) = none := by
   refine ⟨Toy.hashOf, Toy.m0, [Call.prepare Toy.b0, Call.process (Toy.hashOf Toy.b1) Toy.b1], Toy.b1,
     Toy.hashOf_inj, fun b => by simp [Toy.hashOf], ?_, ?_, ?_, rfl, by decide,
-    Toy.stale_run _ (by simp [Toy.hashOf])⟩
+    Toy.stale_run_prefix _ (by simp [Toy.hashOf]), Toy.fixed_run _ (by simp [Toy.hashOf])⟩
   · intro h b' hm
     simp only [List.mem_cons, reduceCtorEq, Call.process.injEq, List.not_mem_nil, or_false, false_or] at hm
     rw [hm.1, hm.2]
@@ -1018,29 +790,32 @@ theorem Order.argmax_majority_perm {H : Type} (d : H) {l1 l2 : List (H × Nat)} 
 `tools/gen muxfacts` prints, from the current source, the pieces of `abci/state.go`, `abci/mux.go`,
 `abci/system.go` and `api/block.go` the model was written from.  Each theorem below pins them to
 what was read when the model was written, next to the model definition it justifies; a change of
-any of them (say, `isEqual` starts comparing the commit info, `BlockInfo` grows a field the cache
+any of them (say, `isEqual` stops comparing the commit info, `BlockInfo` grows a field the cache
 does not compare, a guard of the metadata check is dropped) breaks the build until the model has
 been re-read against the code. -/
 
 open Generated.MuxFacts in
-/-- `isEqual` (model: `isEqual`, `reusable`): exactly header, transactions, misbehaviour — no
-commit info; ProcessProposal reuses on `exists ∧ executed ∧ isEqual`, otherwise executes with the
+/-- `isEqual` (model: `isEqual`, `reusable`): header, transactions, last-commit info,
+misbehaviour; ProcessProposal reuses on `exists ∧ executed ∧ isEqual`, otherwise executes with the
 request's hash, header, txs, *proposed last commit*, misbehaviour; PrepareProposal executes with the
 empty hash and the *local* last commit and records header, txs (with the metadata transaction
 appended) and misbehaviour. -/
 theorem source_isEqual_and_proposal_calls :
-    isEqualParams = ["header *cmtproto.Header", "txs [][]byte", "misbehavior []types.Misbehavior"] ∧
-    isEqualConditions = ["ps.header == nil",
+    isEqualParams = ["header *cmtproto.Header", "txs [][]byte", "lastCommit *types.CommitInfo",
+      "misbehavior []types.Misbehavior"] ∧
+    isEqualConditions = ["ps.header == nil || ps.lastCommit == nil",
       "!bytes.Equal(header.ProposerAddress, ps.header.ProposerAddress)",
       "len(txs) != len(ps.txs)", "len(misbehavior) != len(ps.misbehavior)",
-      "!proto.Equal(header, ps.header)", "!bytes.Equal(txs[i], ps.txs[i])",
+      "!proto.Equal(header, ps.header)", "!proto.Equal(lastCommit, ps.lastCommit)",
+      "!bytes.Equal(txs[i], ps.txs[i])",
       "!proto.Equal(&misbehavior[i], &ps.misbehavior[i])"] ∧
     processProposalConditions.head? = some
-      "mux.state.proposal != nil && !mux.state.proposal.needsExecution() && mux.state.proposal.isEqual(&header, req.Txs, req.Misbehavior)" ∧
+      "mux.state.proposal != nil && !mux.state.proposal.needsExecution() && mux.state.proposal.isEqual(&header, req.Txs, &req.ProposedLastCommit, req.Misbehavior)" ∧
     processProposalAssigns = ["mux.state.proposal.hash = req.Hash"] ∧
     processProposalExecuteArgs = ["req.Hash, header, req.Txs, req.ProposedLastCommit, req.Misbehavior"] ∧
     prepareProposalExecuteArgs = ["[]byte{}, header, txs, lastCommit, req.Misbehavior"] ∧
-    prepareProposalRecords = ["p.header = &header", "p.txs = txs", "p.misbehavior = req.Misbehavior"] ∧
+    prepareProposalRecords = ["p.header = &header", "p.txs = txs", "p.misbehavior = req.Misbehavior",
+      "p.lastCommit = &lastCommit"] ∧
     prepareProposalResultAssigns =
       ["mux.state.proposal.resultsDeliverTx = append(mux.state.proposal.resultsDeliverTx, systemTxResults...)"] :=
   ⟨rfl, rfl, rfl, rfl, rfl, rfl, rfl, rfl⟩
@@ -1048,8 +823,8 @@ theorem source_isEqual_and_proposal_calls :
 open Generated.MuxFacts in
 /-- What an application can read about a block besides its transactions (model: the arguments of
 `Apps.begin`): `BlockInfo` = time and proposer address (from the header), last-commit info,
-misbehaviour; the other three fields are scratch space filled during execution.  Everything in it
-is compared by `isEqual` except `LastCommitInfo`. -/
+misbehaviour; the other three fields are scratch space filled during execution.  All four inputs
+are compared by `isEqual` (time and proposer through the header). -/
 theorem source_block_info :
     blockInfoFields = ["Time time.Time", "ProposerAddress []byte", "LastCommitInfo types.CommitInfo",
       "ValidatorMisbehavior []types.Misbehavior", "GasAccountant GasAccountant",
@@ -1065,7 +840,7 @@ BeginBlock resets unless the hash is unchanged; DeliverTx pops the queue and pan
 empty; EndBlock panics when it is not, and validates system transactions last. -/
 theorem source_cache_guards :
     proposalStateFields = ["header *cmtproto.Header", "txs [][]byte", "misbehavior []types.Misbehavior",
-      "hash []byte", "tree mkvs.OverlayTree", "resultsBeginBlock *types.ResponseBeginBlock",
+      "lastCommit *types.CommitInfo", "hash []byte", "tree mkvs.OverlayTree", "resultsBeginBlock *types.ResponseBeginBlock",
       "resultsDeliverTx []*types.ResponseDeliverTx", "resultsEndBlock *types.ResponseEndBlock"] ∧
     needsExecutionReturns =
       ["ps.resultsBeginBlock == nil || ps.resultsDeliverTx == nil || ps.resultsEndBlock == nil"] ∧
